@@ -1,6 +1,6 @@
 CONSTANTS
   MaxCmds = 4
-  MaxPending = 2
+  MaxPending = 3
   MaxNum = 2
   MaxItems = 2
 INIT GenInit
